@@ -9,6 +9,8 @@ import (
 	"sort"
 	"strconv"
 	"strings"
+
+	"verif/harness/internal/ev"
 )
 
 type Rel struct {
@@ -108,6 +110,10 @@ func parseJSON(root, out string) ([]Prob, error) {
 		if jp.Code == "" {
 			return nil, fmt.Errorf("json line %d has no \"code\": %s", i+1, line)
 		}
+		if jp.Location.File != "" && !filepath.IsAbs(jp.Location.File) {
+			// observed for go list errors; the documentation only shows absolute names
+			ev.Count("json_problem_with_relative_file_name", 1)
+		}
 		p := Prob{File: relFile(root, jp.Location.File), Line: jp.Location.Line, Col: jp.Location.Column,
 			Code: jp.Code, Msg: jp.Message, EndLine: jp.End.Line, EndCol: jp.End.Column, Sev: jp.Severity}
 		if jp.End.File != "" && relFile(root, jp.End.File) != p.File {
@@ -125,7 +131,7 @@ func parseJSON(root, out string) ([]Prob, error) {
 
 var (
 	textStart = regexp.MustCompile(`^(?:(-)|(.+?):(\d+):(\d+)): (.*)$`)
-	textEnd   = regexp.MustCompile(`^(.*) \(([A-Za-z]+[0-9]*)\)$`)
+	textEnd   = regexp.MustCompile(`(?s)^(.*) \(([A-Za-z]+[0-9]*)\)$`)
 	textRel   = regexp.MustCompile(`^\t(?:.+?:)?(\d+):(\d+): (.*)$`)
 )
 
